@@ -370,6 +370,19 @@ def check_site(idx, rep, res, ortho, fi, call, wrapper):
             rep.decide(True if sym else False, "output-annotation", construct,
                        f"`{text}`: Tridiagonal built with {'the same array' if sym else 'different arrays'} in both off-diagonal slots", detail="" if sym else "asymmetric", locs=[loc])
             return
+    if wrapper == "PSD" and call.args:
+        # f(A) = V diag(f(w)) V^H is positive semi-definite only if f is non-negative on the spectrum: for a function the caller passes in
+        # (log, x -> x - 1, ...) the claim cannot hold for every f
+        fparams = set(fi.params)
+        for x in ast.walk(call.args[0]):
+            e = df.resolve_value(fi.node, x) if isinstance(x, ast.Name) else None
+            if e is None or e is x:
+                continue
+            for c in [c for c in ast.walk(e) if isinstance(c, ast.Call) and isinstance(c.func, ast.Name) and c.func.id in fparams]:
+                rep.refuted("output-annotation", construct, f"`{text}`: the middle factor is `{ast.unparse(c)[:40]}` with `{c.func.id}` a function handed in by the caller -- "
+                            "V diag(f(w)) V^H is positive semi-definite only when f >= 0 on the spectrum (false for log on eigenvalues below 1, for x -> x - 1, ...)",
+                            detail="arbitrary-function", locs=[loc])
+                return
     rep.undecided("output-annotation", construct, f"`{text}`: Hermitian/PSD construction not recognised", locs=[loc])
 
 
